@@ -83,10 +83,10 @@ def count_air_obligations(log_dir):
     return counts
 
 
-def run_verus(path, rlimit=None, seed=None, log_air=True, extra=()):
+def run_verus(path, rlimit=None, seed=None, log_air=True, extra=(), multiple_errors=20):
     log_dir = tempfile.mkdtemp(prefix='vlog_')
     cmd = [VERUS, path, '--triggers-mode', 'silent', '--output-json', '--time', '--expand-errors',
-           '--multiple-errors', '20', '--error-format=json']
+           '--multiple-errors', str(multiple_errors), '--error-format=json']
     if rlimit:
         cmd += ['--rlimit', str(rlimit)]
     if seed:
@@ -337,3 +337,31 @@ def _run_unit_once(unit_path, gen_dir=None, rlimit=None, seed=None, exclude=()):
         res.reason = 'note: ' + '; '.join(res.fuzzy)
     res.wall_s = time.time() - t0
     return res
+
+
+def run_reach(unit_path, gen_dir):
+    """Vacuity guard: every contracted function's preconditions must be satisfiable.  Returns (checked, vacuous, note)."""
+    unit = os.path.splitext(os.path.basename(unit_path))[0]
+    try:
+        g = Generator(unit_path, reach=True).run()
+    except LostAnchor as e:
+        return 0, [], 'lost anchor: %s' % e
+    d = os.path.join(gen_dir, 'reach')
+    path = g.write(d)
+    out = run_verus(path, rlimit=1, log_air=False, multiple_errors=1)
+    twins = [f for f in g.fns if f.get('reach')]
+    hit = set()
+    other = []
+    for dg in out['diags']:
+        if dg.get('level') != 'error' or dg.get('message', '').startswith('aborting'):
+            continue
+        prim = [s for s in dg.get('spans', []) if s.get('is_primary')]
+        f = fn_at(g, prim[0]['line_start']) if prim else None
+        if f is not None and f.get('reach') and ('assertion failed' in dg.get('message', '') or 'rlimit' in dg.get('message', '').lower()):
+            hit.add(f['emit_name'])   # `false` is not derivable from the preconditions (within the budget): not vacuous
+        elif f is None or not f.get('reach'):
+            other.append(dg.get('message', '')[:120])
+    if out['json'] is None or (out['json'].get('verification-results', {}).get('encountered-vir-error')):
+        return len(twins), [], 'reach file rejected by verus: ' + '; '.join(other[:3])
+    vac = [f['qual'] for f in twins if f['emit_name'] not in hit]
+    return len(twins), vac, ('' if not other else 'other diagnostics: ' + '; '.join(other[:3]))
